@@ -48,6 +48,10 @@ def generate(rng, tier):
         pool = rng.choice(["int", "str", "str", "adv"])
         a = F.gen_fa(rng, max_states=(5 if tier == "thorough" and rng.random() < 0.25 else 4), pool=pool)
         b = F.gen_fa(rng, max_states=4, pool=rng.choice([pool, "int", "str"]))
+        if rng.random() < 0.12:
+            # both operands named like outputs of to_deterministic() / minimize() over the same underlying states
+            a = F.gen_fa(rng, max_states=4, pool="subsets")
+            b = F.gen_fa(rng, max_states=4, pool="subsets")
         for x in (a, b):   # union/concatenate/kleene_star go through regex text: plain string symbols
             x["symvals"] = F.PLAIN_SYMS[:len(x["symvals"])]
         # alphabets: same pool of symbol values, possibly only partly overlapping
@@ -69,6 +73,13 @@ def pair_scope(sa, sb):
         tags.append("unclean_pair_names")
     return tags
 
+
+def inter_scope(sa, sb):
+    """get_intersection names the pair (x, y) `str(x) + "; " + str(y)`: the naming defect (KF-C03-1) can only show
+    when that map is not injective on the two state sets - any other failure is not the known finding"""
+    # state values equal as Python values are one state (1 and "1" are two)
+    names = [str(x) + "; " + str(y) for x in dict.fromkeys(sa) for y in dict.fromkeys(sb)]
+    return ["unclean_pair_names"] if len(set(names)) != len(names) else []
 
 
 def exhaustive(tier):
@@ -144,7 +155,7 @@ def run_case(case, drv):
     # ---- intersection -----------------------------------------------------------------
     for opname, f in (("get_intersection", lambda: fa.get_intersection(fb)), ("&", lambda: fa & fb)):
         st, R = outcome(f)
-        scope = pair_scope(sa["svals"], sb["svals"])
+        scope = inter_scope(sa["svals"], sb["svals"])
         if st != "ok":
             res.violation(opname, "raised %s" % R, scope=scope)
             continue
